@@ -243,6 +243,14 @@ def functions():
                         (numpy.newaxis, slice(None), 0), (slice(None), numpy.newaxis)]
         if len(sh) == 3:
             choices += [(0, slice(None), -1), (Ellipsis, 0, 0), (slice(None), 0, slice(None, None, -1)), (numpy.array([0]), slice(None), numpy.array([0]))]
+            # advanced parts separated by a slice / Ellipsis / None: numpy moves the broadcast axes to the front (seeded
+            # change C09-10: one indexing step on the stacked coefficients puts them before the term axis)
+            n2 = sh[2]
+            sep = [(0, slice(None), [0, n2 - 1]), ([0, n0 - 1], slice(None), [0, n2 - 1]), (0, Ellipsis, [n2 - 1, 0]),
+                   ([n0 - 1], None, slice(None), [0]), ([0, n0 - 1], slice(None), 0), ([[0], [n0 - 1]], slice(None), [0, n2 - 1]),
+                   (numpy.array([n0 - 1, 0, 0]), slice(0, 1), numpy.array([0, 0, n2 - 1]))]
+            if r.random() < .5:
+                choices = sep
         ix = choices[int(r.integers(len(choices)))]
         return [P(r, sh)], lambda a: a[ix], lambda i: i[ix], {"index": repr(ix)}
     one("getitem", getitem)
@@ -383,14 +391,112 @@ def run_model_shapefns(ctx):
                 bad = tuple(d + 1 for d in sh)
                 many({"fn": "concatenate", "axis": ax}, lambda xs, ax=ax: numpy.concatenate(xs, axis=ax), [sh, bad])
         many({"fn": "stack", "axis": 0}, lambda xs: numpy.stack(xs, axis=0), [sh, tuple(sh) + (1,)])
+    # ---- basic indexing, split family, diag, atleast_nd, broadcast_to (Np/Model/IndexFns.lean)
+    def idx1(req, f, sh):
+        try:
+            out = numpy.asarray(f(ids(sh)))
+            want = (list(out.shape), [int(x) for x in out.ravel()])
+        except Exception:  # noqa: BLE001
+            want = None
+        reqs.append(dict(req, op="indexfn", shape=list(sh), id=len(reqs)))
+        wants.append(want)
+
+    def pieces(req, f, sh):
+        try:
+            outs = [numpy.asarray(o) for o in f(ids(sh))]
+            want = ("pieces", [(list(o.shape), [int(x) for x in o.ravel()]) for o in outs])
+        except Exception:  # noqa: BLE001
+            want = None
+        reqs.append(dict(req, op="indexfn", shape=list(sh), id=len(reqs)))
+        wants.append(want)
+
+    def item_json(it):
+        if it is None:
+            return "newaxis"
+        if it is Ellipsis:
+            return "ellipsis"
+        if isinstance(it, slice):
+            return {"slice": [it.start, it.stop, 1 if it.step is None else it.step]}
+        return {"int": int(it)}
+
+    irng = ctx.rng("model-index")
+    item_pool = [0, 1, -1, -2, 2, 5, -7, slice(None), slice(None, None, -1), slice(1, None), slice(None, -1), slice(None, None, 2),
+                 slice(-1, None, -2), slice(5, 1, -1), slice(1, 100), slice(-100, 2), slice(2, 1), slice(None, None, -3), None, Ellipsis]
+    for sh in [(4,), (2, 3), (3, 1), (2, 1, 3), (2, 2, 2), (5,)]:
+        for _ in range(40 if ctx.quick else 300):
+            k = int(irng.integers(1, len(sh) + 3))
+            items = tuple(item_pool[int(irng.integers(len(item_pool)))] for _ in range(k))
+            idx1({"fn": "basic", "items": [item_json(it) for it in items]}, lambda a, items=items: a[items], sh)
+        for ax in range(len(sh)):
+            for secs in ([1], [1, 2], [0, 2], [2, 2], [1, 5], []):       # non-decreasing cut points (the model's domain)
+                pieces({"fn": "split", "axis": ax, "sections": secs}, lambda a, ax=ax, secs=secs: numpy.split(a, secs, axis=ax), sh)
+            for k in (1, 2, 3, 4):
+                pieces({"fn": "array_split", "axis": ax, "k": k}, lambda a, ax=ax, k=k: numpy.array_split(a, k, axis=ax), sh)
+                pieces({"fn": "split_equal", "axis": ax, "k": k}, lambda a, ax=ax, k=k: numpy.split(a, k, axis=ax), sh)
+        for d, f in ((1, numpy.atleast_1d), (2, numpy.atleast_2d), (3, numpy.atleast_3d)):
+            idx1({"fn": "atleast", "d": d}, f, sh)
+        for target in [(2, 3), (2, 2, 3), (3, 4), (4,), (2, 4), (1, 5), (2, 2, 2), (3, 3)]:
+            idx1({"fn": "broadcast_to", "target": list(target)}, lambda a, target=target: numpy.broadcast_to(a, target), sh)
+    for sh in [(3,), (1,), (2, 3), (3, 3), (3, 2), (2, 2, 2)]:
+        for k in (-2, -1, 0, 1, 2):
+            try:
+                out = numpy.diag(ids(sh) + 1, k)
+                want = ("fill", list(out.shape), [None if x == 0 else int(x) - 1 for x in out.ravel()])
+            except Exception:  # noqa: BLE001
+                want = None
+            reqs.append({"op": "indexfn", "fn": "diag", "shape": list(sh), "k": k, "id": len(reqs)})
+            wants.append(want)
+
+    # ---- where / choose / full / hstack / vstack / dstack (Np/Model/SelectFns.lean)
+    def sel(req, f, shs):
+        try:
+            out = numpy.asarray(f([ids(sh, 1000 * o) for o, sh in enumerate(shs)]))
+            want = (list(out.shape), [[int(x) // 1000, int(x) % 1000] for x in out.ravel()])
+        except Exception:  # noqa: BLE001
+            want = None
+        reqs.append(dict(req, op="selectfn", id=len(reqs)))
+        wants.append(want)
+
+    for sc, sx, sy in [((3,), (3,), (3,)), ((2, 1), (3,), ()), ((), (2,), (2, 2)), ((2, 3), (1, 3), (2, 1)), ((1, 1, 2), (2,), (2, 1)),
+                       ((2,), (3,), (3,)), ((1,), (), ()), ((2, 2), (2,), (3,))]:
+        for _ in range(3):
+            cond = irng.random(sc) < .5
+            sel({"fn": "where", "cond": [bool(x) for x in cond.ravel()], "sc": list(sc), "sx": list(sx), "sy": list(sy)},
+                lambda xs, cond=cond: numpy.where(cond, xs[0], xs[1]), [sx, sy])
+    for ss, shs in [((3,), [(3,), (3,)]), ((2, 2), [(2,), (2, 2), ()]), ((2,), [(2, 2), (1, 2)]), ((3,), [(2,), (3,)]), ((2,), [(2,)])]:
+        for _ in range(3):
+            selv = irng.integers(0, len(shs) + (1 if irng.random() < .2 else 0), size=ss)
+            sel({"fn": "choose", "sel": [int(x) for x in selv.ravel()], "ss": list(ss), "shapes": [list(x) for x in shs]},
+                lambda xs, selv=selv: numpy.choose(selv, xs), shs)
+    for nm, f in (("hstack", numpy.hstack), ("vstack", numpy.vstack), ("dstack", numpy.dstack)):
+        for shs in [[(3,), (3,)], [(2,), (3,)], [(), ()], [(2, 3), (2, 3)], [(2, 3), (3,)], [(2, 3), (2, 1)], [(1, 3), (2, 3)],
+                    [(2, 1, 2), (2, 1, 2)], [(2,)], [(2, 2), (2, 2), (2, 2)], [(2, 3), (3, 2)], [(), (2,)]]:
+            sel({"fn": nm, "shapes": [list(x) for x in shs]}, lambda xs, f=f: f(xs), shs)
+    for shape, sv in [((2, 3), ()), ((2, 3), (3,)), ((2, 3), (2, 1)), ((2, 3), (1, 2, 3)), ((2, 3), (2,)), ((3,), (1, 1, 3)), ((2, 3), (2, 1, 3)), ((), ())]:
+        try:
+            out = numpy.full(shape, ids(sv))
+            want = (list(out.shape), [int(x) for x in out.ravel()])
+        except Exception:  # noqa: BLE001
+            want = None
+        reqs.append({"op": "selectfn", "fn": "full", "shape": list(shape), "sv": list(sv), "id": len(reqs)})
+        wants.append(want)
+
     bad = []
     for req, want, ans in zip(reqs, wants, run_driver(reqs)):
         ctx.count("model-shapefn")
-        got = None if ans.get("kind") == "none" else (list(ans["shape"]), [list(x) if isinstance(x, list) else x for x in ans["idx"]])
+        kind = ans.get("kind")
+        if kind == "none":
+            got = None
+        elif kind == "pieces":
+            got = ("pieces", [(list(q["shape"]), list(q["idx"])) for q in ans["pieces"]])
+        elif kind == "gatherfill":
+            got = ("fill", list(ans["shape"]), list(ans["idx"]))
+        else:
+            got = (list(ans["shape"]), [list(x) if isinstance(x, list) else x for x in ans["idx"]])
         if got != want:
             bad.append(f"{ {k: v for k, v in req.items() if k not in ('op', 'id')} }: model {str(got)[:120]}, numpy {str(want)[:120]}")
     if bad:
-        raise RuntimeError(f"Np.ShapeFns and numpy disagree on {len(bad)} of {len(reqs)} cases:\n" + "\n".join(bad[:40]))
+        raise RuntimeError(f"Np.ShapeFns and numpy disagree on {len(bad)} of {len(reqs)} cases:\n" + "\n".join(bad[:8]))
     ctx.extra["model_shapefn_cases"] = len(reqs)
 
 
